@@ -193,6 +193,12 @@ func main() {
 			have[name] = true
 			cfgs = append(cfgs, cfg{name, []string{"-g", "go:" + strings.Join(l, ","), "-r"}, true})
 		}
+		// the fastgo backend takes the same options
+		fname := "fastgo:" + strings.Join(l, ",") + " -r"
+		if !have[fname] {
+			have[fname] = true
+			cfgs = append(cfgs, cfg{fname, []string{"-g", "fastgo:" + strings.Join(l, ","), "-r"}, true})
+		}
 	}
 	var mu sync.Mutex
 	caseN := 0
